@@ -9,9 +9,16 @@
           allocated": every assignment, increment and every destination argument of copy / append /
           clear / delete / a call that leaves the package, in every function reachable from the
           documented read-only query methods, can only designate a local variable, memory allocated
-          during the call, or the caller's own buffer.  A heap kept in the tree, a scratch slice of
-          the tree used as a copy/append/sort destination, a write through a visitor field or a local
-          that holds a tree node all give a row whose class list contains "tree" and break it.
+          during the call, or the caller's own RESULT BUFFER (class `caller-buf`: the parameter
+          `buf []orb.Pointer` of the four query methods that take one, per goroutine by the
+          documented contract).  A heap kept in the tree, a scratch slice of the tree used as a
+          copy/append/sort destination, a write through a visitor field or a local that holds a tree
+          node all give a row whose class list contains "tree" and break it; a write to any OTHER
+          argument of the caller (class `caller-arg`: the variadic `maxDistance ...float64`, which is
+          the caller's own slice when the call is written `lims...`, the filter, a pointer) breaks
+          it as well — nothing says those are per goroutine, goroutines may share them read-only.
+        * `caller_arguments_read_only`, `result_buffers_documented` — the same for `caller-arg`
+          alone, and the list of parameters that were classified `caller-buf`.
         * `write_roots_initialised_per_call` — the same obligation re-derived INSIDE Lean from the
           initialisation tables instead of from factgen's class column: for every write, every
           reference field the written path dereferences is initialised (in every composite literal
@@ -54,8 +61,10 @@ open Generated.Writes Orb.Conc
 /-! ### (1) the regenerated write table -/
 
 /-- memory another goroutine cannot reach: a local, memory allocated during the call, or the
-    caller-supplied result buffer (per goroutine by the documented contract) -/
-def harmlessRoot (r : String) : Bool := r == "local" || r == "percall" || r == "caller"
+    caller-supplied RESULT BUFFER (class `caller-buf`, per goroutine by the documented contract).
+    Every other reference a caller hands in (class `caller-arg`: the limits slice behind
+    `maxDistance...`, the filter, a pointer) is NOT in this list: concurrent callers may share it. -/
+def harmlessRoot (r : String) : Bool := r == "local" || r == "percall" || r == "caller-buf"
 
 def rootsOK (rs : List String) : Bool := rs.all harmlessRoot
 
@@ -69,7 +78,17 @@ def harmless (w : W) : Bool :=
     the tree, package-level state, or memory of unknown origin. -/
 theorem no_shared_writes : writes.all harmless = true := by decide
 
-/-- every store to field `f` anywhere in the package puts per-call / caller memory there -/
+/-- No write on the query path can land in an argument of the caller other than the result buffer:
+    the distance limit, the filter and the pointers handed in are read, never written — the limit
+    is a value (`Orb.Quadtree.kNearestCall_limits_unchanged` is the model's side of this). -/
+theorem caller_arguments_read_only : writes.all (fun w => !w.roots.contains "caller-arg") = true := by decide
+
+/-- The parameters factgen classified as result buffers are exactly the documented ones. -/
+theorem result_buffers_documented :
+    resultBuffers = [("Quadtree.InBound", "buf"), ("Quadtree.InBoundMatching", "buf"),
+      ("Quadtree.KNearest", "buf"), ("Quadtree.KNearestMatching", "buf")] := by decide
+
+/-- every store to field `f` anywhere in the package puts per-call memory / the result buffer there -/
 def fieldOK (f : String) : Bool := fieldInits.all fun fi => fi.field != f || rootsOK fi.roots
 
 /-- every binding of variable `v` of function `fn` (definition, assignment, call site, entry point)
@@ -94,11 +113,21 @@ def perCallTypes : List String := ["findVisitor", "nearestVisitor", "inBoundVisi
     far, and the stored pointers collected in the heap -/
 def treeRefFields : List String := ["findVisitor.closest", "heapItem.point"]
 
+/-- what a field of a per-call object may HOLD: harmless memory, or an argument of the caller (the
+    filter function is kept in the visitor and called; holding a reference is not writing — that no
+    write goes through such a field is `write_roots_initialised_per_call`, whose `fieldOK` is strict) -/
+def heldOK (rs : List String) : Bool := rs.all fun r => harmlessRoot r || r == "caller-arg"
+
 /-- Every slice / pointer / function field of a per-call visitor, visit or heap item is initialised
     from per-call or caller memory wherever the package stores to it — except the two read-only
     references into the tree. -/
 theorem per_call_fields_initialised_per_call :
-    fieldInits.all (fun fi => !perCallTypes.contains fi.owner || treeRefFields.contains fi.field || rootsOK fi.roots) = true := by
+    fieldInits.all (fun fi => !perCallTypes.contains fi.owner || treeRefFields.contains fi.field || heldOK fi.roots) = true := by
+  decide
+
+/-- … and a field that may hold an argument of the caller is never dereferenced by a write. -/
+theorem caller_arg_fields_never_written_through :
+    writes.all (fun w => w.via.all fun f => fieldInits.all fun fi => fi.field != f || !fi.roots.contains "caller-arg") = true := by
   decide
 
 /-- … and no write on the query path goes through one of those two references. -/
@@ -206,13 +235,15 @@ theorem queries_schedule_independent {Sh Pr : Type} (sh : Sh) (ths : Nat → Thr
 /-- the regenerated tables are not empty: writes through visitor state, through the per-call heap and
     into the caller's buffer are there, as are the field initialisations the second theorem joins on -/
 example : writes.length ≥ 30 ∧ (writes.any fun w => w.roots == ["percall"] && w.via == ["nearestVisitor.closestBound"]) = true ∧
-    (writes.any fun w => w.kind == "append" && w.roots == ["caller", "percall"]) = true ∧
+    (writes.any fun w => w.kind == "append" && w.roots == ["caller-buf", "percall"]) = true ∧
+    (bindings.any fun b => b.fn == "Quadtree.KNearestMatching" && b.var == "maxDistance" && b.roots == ["caller-arg"]) = true ∧
     (fieldInits.any fun fi => fi.field == "nearestVisitor.maxHeap" && fi.how == "make") = true ∧
     (bindings.any fun b => b.fn == "maxHeap.Push" && b.var == "h" && b.roots == ["percall"]) = true := by decide
 
 /-- `harmless` does reject: a heap that lives in the tree, a `copy` into the tree, a send -/
 example : harmless ⟨"maxHeap.Push", "(*h)[i].point", "assign", ["tree"], "h", [], ["TREE"]⟩ = false ∧
     harmless ⟨"Quadtree.KNearestMatching", "q.scratch", "copy", ["tree"], "q", ["Quadtree.scratch"], ["TREE"]⟩ = false ∧
+    harmless ⟨"Quadtree.KNearestMatching", "maxDistance[0]", "assign", ["caller-arg"], "maxDistance", [], ["CALLER-ARG"]⟩ = false ∧
     harmless ⟨"f", "ch <-", "send", ["percall"], "ch", [], []⟩ = false ∧
     harmless ⟨"f", "p.x", "assign", [], "p", [], []⟩ = false := by decide
 
